@@ -6,6 +6,7 @@
 -/
 import IpldModel.Model.Link
 import IpldModel.Model.Cbor
+import IpldModel.Generated.LinkSkeletons
 namespace Ipld.Props.C06
 open Ipld Ipld.Link
 
@@ -118,5 +119,67 @@ example : fill toyH false toyL ⟨[0xf5, 0x00], none⟩ ⟨2, false⟩ = .ok := 
 example : fill toyH false toyL ⟨[0xf4, 0x00], none⟩ ⟨2, true⟩ = .hashMismatch := by decide
 example : fill toyH false toyL ⟨[0xf5, 0x00], some 1⟩ ⟨1, true⟩ = .ioErr := by decide
 example : store toyH ⟨1, 0x71, 0x12, -1⟩ ⟨[[0xf5], [0x00]], false, some 1⟩ = .failed := by decide
+
+
+/-! ## (T) the transcribed functions as they are in the source on this run -/
+
+/-- `Fill` (and `Load` through it): unless storage is declared trusted the decoder reads through a tee into the hasher; on a decode error the rest of the stream is drained into the hasher (an I/O error there is returned as such); the hash comparison comes next and returns `ErrHashMismatch`; only then is the decode error admitted.  There is no return between the decoder call and the hash comparison other than the I/O error of the drain — which is `Link.fill`. -/
+theorem fill_src_is_transcribed : Ipld.Generated.fill_skel_src = [
+  "if lnkCtx.Ctx == nil",
+  ". lnkCtx.Ctx = context.Background()",
+  "decoder, err := lsys.DecoderChooser(lnk)",
+  "if err != nil",
+  ". return ErrLinkingSetup{\"could not choose a decoder\", err}",
+  "hasher, err := lsys.HasherChooser(lnk.Prototype())",
+  "if err != nil",
+  ". return ErrLinkingSetup{\"could not choose a hasher\", err}",
+  "if lsys.StorageReadOpener == nil",
+  ". return ErrLinkingSetup{\"no storage configured for reading\", io.ErrClosedPipe}",
+  "reader, err := lsys.StorageReadOpener(lnkCtx, lnk)",
+  "if err != nil",
+  ". return err",
+  "if closer, ok := reader.(io.Closer); ok",
+  ". defer closer.Close()",
+  "if lsys.TrustedStorage",
+  ". return decoder(na, reader)",
+  "tee := io.TeeReader(reader, hasher)",
+  "decodeErr := decoder(na, tee)",
+  "if decodeErr != nil",
+  ". _, err := io.Copy(hasher, reader)",
+  ". if err != nil",
+  ". . return err",
+  "hash := hasher.Sum(nil)",
+  "lnk2 := lnk.Prototype().BuildLink(hash)",
+  "if lnk2.Binary() != lnk.Binary()",
+  ". return ErrHashMismatch{Actual: lnk2, Expected: lnk}",
+  "if decodeErr != nil",
+  ". return decodeErr",
+  "return nil"
+] := by decide
+
+/-- `LoadRaw` buffers the whole stream (an I/O error returns no bytes), hashes the buffer, compares links, and only then hands the bytes out (`Link.loadRaw`). -/
+theorem loadRaw_src_is_transcribed : Ipld.Generated.loadRaw_skel_src = [
+  "if lnkCtx.Ctx == nil",
+  ". lnkCtx.Ctx = context.Background()",
+  "hasher, err := lsys.HasherChooser(lnk.Prototype())",
+  "if err != nil",
+  ". return nil, ErrLinkingSetup{\"could not choose a hasher\", err}",
+  "if lsys.StorageReadOpener == nil",
+  ". return nil, ErrLinkingSetup{\"no storage configured for reading\", io.ErrClosedPipe}",
+  "reader, err := lsys.StorageReadOpener(lnkCtx, lnk)",
+  "if err != nil",
+  ". return nil, err",
+  "if closer, ok := reader.(io.Closer); ok",
+  ". defer closer.Close()",
+  "var buf bytes.Buffer",
+  "if _, err := io.Copy(&buf, reader); err != nil",
+  ". return nil, err",
+  "hasher.Write(buf.Bytes())",
+  "hash := hasher.Sum(nil)",
+  "lnk2 := lnk.Prototype().BuildLink(hash)",
+  "if lnk2.Binary() != lnk.Binary()",
+  ". return nil, ErrHashMismatch{Actual: lnk2, Expected: lnk}",
+  "return buf.Bytes(), nil"
+] := by decide
 
 end Ipld.Props.C06
